@@ -4,6 +4,7 @@ The directory trees of all scenarios are materialised once (`materialise`, by th
 scratch directory it removes); the populator only reads them, so every behaviour and every worker shares them.
 Model values: a name is a tuple of dot-separated parts, a path a tuple of names, relative to the tree's root.
 """
+import contextlib
 import os
 import zlib
 
@@ -51,6 +52,47 @@ def args_tag(args, kwargs):
     return 'BAD%r%r' % (tuple(args), dict(kwargs))
 
 
+class _Listing:
+    """What os.scandir returns, over a list of entries."""
+
+    def __init__(self, entries):
+        self.entries = entries
+
+    def __enter__(self):
+        return self
+
+    def __exit__(self, *exc):
+        return False
+
+    def __iter__(self):
+        return iter(self.entries)
+
+    def close(self):
+        pass
+
+
+@contextlib.contextmanager
+def listing_order(order):
+    """The order in which a directory lists its entries is the file system's business; the specification
+    leaves it open, so the harness realises several: 'fs' (as is), 'asc' / 'desc' (by name).  Only code that
+    lists directories through os.scandir (glob, os.walk, os.listdir do not all) is steered; the verdict never
+    depends on it."""
+    if order == 'fs':
+        yield
+        return
+    real = os.scandir
+
+    def scandir(path='.'):
+        with real(path) as it:
+            entries = sorted(it, key=lambda e: e.name, reverse=order == 'desc')
+        return _Listing(entries)
+    os.scandir = scandir
+    try:
+        yield
+    finally:
+        os.scandir = real
+
+
 class MapsBetween:
     """Expectation for the set of sub-maps: every directory on the way to an accepted file, nothing that is
     not a directory under (or leading to) a populating rule's directory."""
@@ -94,12 +136,15 @@ class PopulatorAdapter:
         self.desper = desper
         self.roots = roots
         self.orders = set()
+        self.counter = 0
 
     # ------------------------------------------------------------------------------------------
     def reset(self, init):
         sc = self.sc = init['sc']
         self.root = self.roots[tree_key(sc)]
         self.variant = zlib.crc32(to_tla(sc).encode())       # stable choice of how the root is passed
+        self.counter += 1                                    # a scenario is replayed more than once: vary the listing
+        self.order = ('fs', 'asc', 'desc')[(self.variant // 2 + self.counter) % 3]
         self.map = self.desper.ResourceMap()
         # the root may come from the constructor or from the call: alternate, the other one is a decoy
         ctor_root = self.root if self.variant & 1 else os.path.join(self.root, 'no-such-root')
@@ -161,7 +206,8 @@ class PopulatorAdapter:
             opts['trim_extensions'] = call['t'] == 'T'
         if not self.variant & 1:
             opts['root'] = self.root
-        _v, ex = guarded(lambda: self.pop(self.map, **opts))
+        with listing_order(self.order):
+            _v, ex = guarded(lambda: self.pop(self.map, **opts))
         cols, maps, raw = {}, set(), {}
         self._walk(self.map, (), cols, maps, raw)
         self.raw = raw
